@@ -198,6 +198,9 @@ def run_case(case):
           if c >= nd and cap != "nvmax":
             rec.count(f"{cap}:bit_set_although_sufficient")
           continue
+        if (bits[w] | A["obs"]["overflow"][w]) & meta.ITER_BITS:
+          rec.count("ungated_iteration_limit")  # the property only speaks about steps without any overflow bit
+          continue
         # robust form: no capacity bit in this world => result must equal the ample run
         tmp = core.Rec(case)
         c1 = meta.compare_obs(tmp, "", A["obs"], B["obs"], w, w)
